@@ -92,9 +92,20 @@ BatchViol(N, p, b) ==
   IF ~b.ok THEN {V(N.id, p, "ncols", 0)}
   ELSE {V(N.id, p, "type", c) : c \in {x \in 1..N.w : b.types[x] # N.schema[x].t}}
        \cup {V(N.id, p, "nonnull", c) : c \in {x \in 1..N.w : ~N.schema[x].n /\ b.nulls[x] = 1}}
+\* every scalar-function invocation (N.fns[j].calls: the function applied by the engine's evaluator to each
+\* batch the node's input emitted): the result has the declared return type and one value per input row
+FnViol(N) ==
+  {V(N.id, 0 - 1, "fntype", j) : j \in {x \in 1..Len(N.fns) : \E c \in 1..Len(N.fns[x].calls) : N.fns[x].calls[c].t # N.fns[x].t}}
+  \cup {V(N.id, 0 - 1, "fnlen", j) : j \in {x \in 1..Len(N.fns) : \E c \in 1..Len(N.fns[x].calls) : N.fns[x].calls[c].len # N.fns[x].calls[c].n}}
 C30Viol(N) ==
+  FnViol(N) \cup
   UNION {UNION {BatchViol(N, N.streams[s].p, N.streams[s].batches[b]) : b \in 1..Len(N.streams[s].batches)} :
            s \in Streams(N)}
+\* the executed result's types are logically equivalent to the logical plan's output types (type tokens
+\* normalised by the recorder: a dictionary / view / large encoding maps to the token of its value type)
+LogicalViol(logical, root) ==
+  IF Len(logical) # Len(root) THEN {V(0, 0 - 1, "logical", 0)}
+  ELSE {V(0, 0 - 1, "logical", c) : c \in {x \in 1..Len(root) : logical[x].t # root[x].t}}
 
 (* ------------------------------ C29 ------------------------------ *)
 \* a statistic flagged Exact equals the value computed from the observed output.  Judged only where
